@@ -154,6 +154,14 @@ def id_schemes(n, rng, thorough):
 
 
 def generate(tier, rng):
+    for i, c in enumerate(_generate(tier, rng)):
+        yield c
+        if i % 7 == 3:
+            # the same case on a dispatcher configured with the user's own (equivalent) JSON loader / dumper / encoder / decoder
+            yield dict(c, cfg=dict(c['cfg'], json_hooks=True))
+
+
+def _generate(tier, rng):
     thorough = tier == 'thorough'
     std = cfg()
     # (a) single request objects: full product of member alphabets
